@@ -249,101 +249,6 @@ func init() {
 }
 
 // ---------------------------------------------------------------------------------------
-// requirements.txt
-
-func init() {
-	f := &formatDef{
-		name: "requirements",
-		caps: Caps{CRLF: true, Comments: true, Continuation: true, BlankLines: true, Variants: []string{"", "dev"}},
-		path: func(l Layout) string {
-			if l.Variant == "dev" {
-				return "ci/requirements-dev.txt"
-			}
-			return "requirements.txt"
-		},
-		special: func(r Record) bool {
-			return r.A("extras") != "" || r.A("marker") != "" || r.A("hashes") != "" || (r.A("op") != "" && r.A("op") != "==")
-		},
-	}
-	f.render = func(recs []Record, l Layout) []byte {
-		c := &chooser{b: l.Choices}
-		var lines []string
-		if l.Comments > 0 {
-			lines = append(lines, "# "+c.pick(commentTexts...))
-		}
-		if l.Extra >= 2 {
-			lines = append(lines, c.pick("--index-url https://pypi.org/simple", "-i https://pypi.org/simple/", "--extra-index-url https://mirror.example.org/simple"))
-		}
-		if l.Extra >= 3 {
-			lines = append(lines, "--trusted-host mirror.example.org", "-c constraints.txt", "--no-binary :all:")
-		}
-		idx := arrange(f, recs, l)
-		for k, i := range idx {
-			r := recs[i]
-			if l.commentHere(c) {
-				lines = append(lines, c.pick("# ", "#", "   # ")+c.pick(commentTexts...))
-			}
-			line := r.Name
-			if ex := splitList(r.A("extras")); len(ex) > 0 {
-				line += c.pick("", " ") + "[" + strings.Join(ex, c.pick(",", ", ")) + "]"
-			}
-			op := r.A("op")
-			if op == "" {
-				op = "=="
-			}
-			sp := c.pick("", "", " ", "   ")
-			line += sp + op + c.pick("", " ") + r.Version
-			if l.Extra == 0 {
-				line = r.Name + op + r.Version
-				if ex := splitList(r.A("extras")); len(ex) > 0 {
-					line = r.Name + "[" + strings.Join(ex, ",") + "]" + op + r.Version
-				}
-			}
-			if m := r.A("marker"); m != "" {
-				line += c.pick("; ", " ; ", ";") + m
-			}
-			hs := splitList(r.A("hashes"))
-			var phys []string
-			if len(hs) > 0 {
-				if l.Continuation {
-					phys = append(phys, line+" \\")
-					for j, h := range hs {
-						s := "    --hash=" + h
-						if j < len(hs)-1 {
-							s += " \\"
-						}
-						phys = append(phys, s)
-					}
-				} else {
-					for _, h := range hs {
-						line += " --hash=" + h
-					}
-					phys = append(phys, line)
-				}
-			} else if l.Continuation && c.n(3) == 0 {
-				// a continuation that only carries trailing whitespace
-				phys = append(phys, line+" \\", "   ")
-			} else {
-				phys = append(phys, line)
-			}
-			if l.Comments > 0 && c.n(3) == 0 && !strings.HasSuffix(phys[len(phys)-1], "\\") && strings.TrimSpace(phys[len(phys)-1]) != "" {
-				phys[len(phys)-1] += c.pick(" # ", "  #", "\t# ") + c.pick(commentTexts...)
-			}
-			lines = append(lines, phys...)
-			for b := 0; b < l.blankAfter(k); b++ {
-				lines = append(lines, "")
-			}
-		}
-		if l.Comments > 0 && c.yes() {
-			lines = append(lines, "# end")
-		}
-		return finish(lines, l, true)
-	}
-	f.expected = func(recs []Record, l Layout) []Pair { return pairsOf(recs, nil) }
-	register(f)
-}
-
-// ---------------------------------------------------------------------------------------
 // go.mod
 
 func trimV(s string) string { return strings.TrimPrefix(s, "v") }
